@@ -302,6 +302,277 @@ def clause_no_refusal_after_write(prog, rep, pw, rule="preview-gates-writes", pr
     rep.floor(rule, "`?` sites after the first write in process_welcome", n, 2)
 
 
+BACKENDS = ("mdk_memory_storage", "mdk_sqlite_storage")
+
+
+def _innermost(f, ws):
+    for w in ws:
+        if all(f.dominates(o, w) for o in ws):
+            return w
+    return ws[-1] if ws else None
+
+
+def limit_defaults(prog):
+    """default value of every configurable limit of the memory backend (the `Default for ValidationLimits` aggregate)"""
+    out = {}
+    for f in prog.nontest_fns(("mdk_memory_storage",)):
+        if f.name != "default":
+            continue
+        for bb, st in f.aggregates("ValidationLimits"):
+            for n, o in zip(st.get("fields") or [], st.get("o", [])):
+                c = o.get("c") if isinstance(o, dict) else None
+                if isinstance(c, dict) and isinstance(c.get("int"), int):
+                    out[n] = c["int"]
+    return out
+
+
+def _describe_condition(prog, f, l, limits, first_arg=2):
+    """what an input-validation refusal tests: the argument fields it reads and the bound it compares them with"""
+    scope = set(q for q in prog.fns if q == f.path or q.startswith(f.path + "::{closure"))
+    og = A.origins(prog, f, l, scope=scope, _follow_callers=False)
+    atoms = set()
+    for g, pl in og.places:
+        if g.path == f.path and first_arg <= pl[0] <= f.nargs:
+            fl = [e[1:] for e in pl[1:] if isinstance(e, str) and e.startswith(".") and not e[1:].isdigit()]
+            atoms.add((pl[0], fl[0] if fl else None))
+    dep, _, _ = f.depends_on(l)
+    for a in range(first_arg, f.nargs + 1):
+        if a in dep and not any(x[0] == a for x in atoms):
+            atoms.add((a, None))
+    bounds = []
+    for _, _, c in og.consts:
+        if isinstance(c, dict) and isinstance(c.get("int"), int) and c["int"] > 1 and c.get("ty") in ("usize", "u64", "u32", "i64"):
+            bounds.append((c["int"], last_seg(c.get("item") or "") or str(c["int"])))
+    for fld in og.fields:
+        if fld in limits:
+            bounds.append((limits[fld], "limits." + fld))
+    return atoms, bounds
+
+
+def validation_refusals(prog, f, limits, depth=0, first_arg=2):
+    """the places where a backend method refuses its *argument* (an InvalidParameters error whose condition compares argument data
+    with a size / count bound); refusals that test stored state ("Group not found") carry no bound and are not listed"""
+    out = []
+    state = 0
+    for bb, st in f.stmts():
+        if st.get("k") == "agg" and st.get("variant") == "InvalidParameters":
+            w = _innermost(f, A.control_dependent_switches(f, bb))
+            l = A._opl(f.term(w)["discr"]) if w is not None else None
+            if l is None:
+                continue
+            atoms, bounds = _describe_condition(prog, f, l, limits, first_arg)
+            if not bounds or not atoms:
+                state += 1
+                continue
+            out.append({"atoms": atoms, "bound": min(bounds), "loc": "%s:%s" % (f.file, st.get("line") or f.line)})
+        if st.get("k") == "closure":
+            g = prog.fns.get(st["closure"])
+            if not g or not any(x.get("k") == "agg" and x.get("variant") == "InvalidParameters" for _, x in g.stmts()):
+                continue
+            d = st["d"][0]
+            for c in f.live_calls():
+                if c.name in ("map_err", "or_else") and any("p" in a and a["p"][0] == d for a in c.args[1:]) and c.args and "p" in c.args[0]:
+                    atoms, bounds = _describe_condition(prog, f, c.args[0]["p"][0], limits, first_arg)
+                    if not bounds or not atoms:
+                        state += 1
+                        continue
+                    out.append({"atoms": atoms, "bound": min(bounds), "loc": c.loc()})
+    # validation moved into a helper of the same crate: its refusals count as this method's, with the helper's parameters mapped back
+    if depth < 2:
+        for c in f.live_calls():
+            for g in prog.call_targets(c):
+                if g.crate != f.crate or g.is_closure() or g.is_test_like() or g.path == f.path:
+                    continue
+                amap = {}
+                for i, a in enumerate(c.args):
+                    if "p" not in a:
+                        continue
+                    fl = [e[1:] for e in a["p"][1:] if isinstance(e, str) and e.startswith(".") and not e[1:].isdigit()]
+                    roots = set()
+                    if 2 <= a["p"][0] <= f.nargs:
+                        roots.add((a["p"][0], fl[0] if fl else None))
+                    for x in A.copy_sources(f, a["p"][0]):
+                        if isinstance(x, int) and 2 <= x <= f.nargs:
+                            roots.add((x, fl[0] if fl else None))
+                        elif isinstance(x, tuple) and 2 <= x[0] <= f.nargs:
+                            xf = [e[1:] for e in x[1:] if isinstance(e, str) and e.startswith(".") and not e[1:].isdigit()]
+                            roots.add((x[0], xf[0] if xf else None))
+                    if len(roots) == 1:
+                        amap[i + 1] = list(roots)[0]
+                if not amap:
+                    continue
+                sub, st2 = validation_refusals(prog, g, limits, depth + 1, first_arg=1)
+                for r in sub:
+                    atoms = set()
+                    for (ai, fld) in r["atoms"]:
+                        if ai in amap:
+                            atoms.add((amap[ai][0], amap[ai][1] if amap[ai][1] is not None else fld))
+                    if atoms:
+                        out.append({"atoms": atoms, "bound": r["bound"], "loc": r["loc"]})
+    return out, state
+
+
+def _src_key(pw, o):
+    """where process_welcome takes a value from: the named fields of the place it copies (`….nostr_group_data.name`) or the parameter"""
+    if not isinstance(o, dict) or "p" not in o:
+        return None
+    fl = tuple(e[1:] for e in o["p"][1:] if isinstance(e, str) and e.startswith(".") and not e[1:].isdigit())
+    if fl:
+        return fl
+    keys = set()
+    for x in A.copy_sources(pw, o["p"][0]):
+        if isinstance(x, tuple):
+            fl = tuple(e[1:] for e in x[1:] if isinstance(e, str) and e.startswith(".") and not e[1:].isdigit())
+            if fl:
+                keys.add(fl)
+        elif isinstance(x, int) and 1 <= x <= pw.nargs:
+            keys.add(("param", pw.local_name(x) or str(x)))
+    return sorted(keys)[0] if len(keys) == 1 else None
+
+
+def _arg_sources(pw, c):
+    """(impl argument index, field) -> source key for a storage call in process_welcome"""
+    out = {}
+    for i, a in enumerate(c.args):
+        if i == 0 or "p" not in a:
+            continue
+        k = _src_key(pw, a)
+        if k:
+            out[(i + 1, None)] = k
+        for x in A.copy_sources(pw, a["p"][0]):
+            if not isinstance(x, int):
+                continue
+            for bb, kind, d in pw.defs().get(x, []):
+                if kind == "stmt" and d.get("k") == "agg" and d.get("fields") and len(d["d"]) == 1:
+                    for n, o in zip(d["fields"], d.get("o", [])):
+                        k = _src_key(pw, o)
+                        if k:
+                            out[(i + 1, n)] = k
+    return out
+
+
+class _Item:
+    """a storage call made by process_welcome: directly (`outer` is the call) or inside a mdk-core helper it calls (`inner`, in `fn`)"""
+
+    def __init__(self, outer, inner, fn, srcs):
+        self.outer, self.inner, self.fn, self.srcs = outer, inner, fn, srcs
+        self.call = inner or outer
+        self.name = self.call.name
+
+
+def _storage_items(prog, pw):
+    items = []
+    for c in pw.live_calls():
+        if "to" not in c.t:
+            continue
+        if (c.trait or "").startswith("mdk_storage_traits::"):
+            items.append(_Item(c, None, pw, _arg_sources(pw, c)))
+            continue
+        for h in prog.call_targets(c):
+            if h.crate != "mdk_core" or h.is_closure() or h.is_test_like() or h.path == pw.path:
+                continue
+            outer_srcs = None
+            for ci in h.live_calls():
+                if not (ci.trait or "").startswith("mdk_storage_traits::") or "to" not in ci.t:
+                    continue
+                if outer_srcs is None:
+                    outer_srcs = _arg_sources(pw, c)
+                srcs = {}
+                local = _arg_sources(h, ci)
+                for i, a in enumerate(ci.args):
+                    if i == 0 or "p" not in a:
+                        continue
+                    params = [x for x in A.copy_sources(h, a["p"][0]) if isinstance(x, int) and 1 <= x <= h.nargs]
+                    if len(params) == 1:
+                        for (k, fld), v in outer_srcs.items():
+                            if k == params[0]:
+                                srcs[(i + 1, fld)] = v
+                    else:
+                        for (k, fld), v in local.items():
+                            if k == i + 1 and v[:1] != ("param",):
+                                srcs[(k, fld)] = v
+                items.append(_Item(c, ci, h, srcs))
+    return items
+
+
+def _reaches(pw, x, y):
+    if x.outer is not y.outer:
+        # a call inside a helper is followed by the caller's later calls only if the helper can still return Ok after it
+        # (the preview's failure record is followed by `return Err`)
+        if x.inner is not None and not A.ok_return_reachable(x.fn, x.inner.t["to"], frozenset()):
+            return False
+        return y.outer.bb in pw.reachable_from(x.outer.t["to"])
+    if x.inner is None or y.inner is None or x.inner is y.inner:
+        return False
+    return y.inner.bb in x.fn.reachable_from(x.inner.t["to"])
+
+
+def _on_every_path(prog, pw, e, w, r):
+    """the success of call e lies on every path from the write w to the call r"""
+    if e.outer is r.outer:
+        return e.inner is not None and r.inner is not None and A.succ_dominated(e.fn, r.inner.bb, [e.inner])
+    if e.inner is not None and not A.Guarantee(prog, lambda x: x is e.inner).fn(e.fn):
+        return False
+    cut = A.success_edges(pw, [e.outer])
+    if not cut:
+        return False
+    start = w.outer.t["to"] if w.outer is not e.outer else w.outer.bb
+    return r.outer.bb not in A.reach_without_edges(pw, start, cut)
+
+
+def clause_storage_refusal_after_write(prog, rep, pw, rule="preview-gates-writes", prefix="MDK::process_welcome"):
+    """the storage layer validates what it is given (name / description length, relay and admin counts, JSON sizes) and refuses with
+    InvalidParameters.  Once process_welcome stored the pending group, a later storage call may only repeat a check an earlier call
+    already made on the same data with a bound at least as strict — otherwise an invitation is refused with the group left behind.
+    Decided per backend from the impls of the calls (process_welcome's own and those of the mdk-core helpers it calls), with the data
+    matched through the fields process_welcome copies them from."""
+    limits = limit_defaults(prog)
+    rep.floor(rule, "configurable limits with a default (memory backend)", len(limits), 6)
+    items = _storage_items(prog, pw)
+    writes = [x for x in items if is_write(x.call)]
+    rep.floor(rule, "storage writes made by process_welcome (directly or through a helper)", len(writes), 4)
+    first = [w for w in writes if not any(o is not w and _reaches(pw, o, w) for o in writes)]
+    rep.floor(rule, "first storage write of process_welcome", len(first), 1)
+    examined = 0
+    for backend in BACKENDS:
+        desc = {}
+        for x in items:
+            impls = [g for g in prog.find(name=x.name, crate=backend) if not g.is_closure() and "mdk_storage_traits" in g.path]
+            if not impls:
+                continue
+            refs, _ = validation_refusals(prog, impls[0], limits)
+            for r in refs:
+                r["src"] = frozenset(x.srcs.get(a) or x.srcs.get((a[0], None)) or ("unmatched", x.name) + tuple(str(v) for v in a) for a in r["atoms"])
+            desc[id(x)] = refs
+        for w in first:
+            for x in items:
+                if x is w or not _reaches(pw, w, x):
+                    continue
+                earlier = [w] + [e for e in items if e is not x and e is not w and _reaches(pw, w, e) and _on_every_path(prog, pw, e, w, x)]
+                groups = {}
+                for r in desc.get(id(x), []):
+                    examined += 1
+                    groups.setdefault("+".join(sorted("/".join(v) for v in r["src"])), []).append(r)
+                for what in sorted(groups):
+                    inst = "%s/storage-refusal-after-write/%s/%s/%s" % (prefix, backend.replace("mdk_", "").replace("_storage", ""), x.name, what)
+                    late = []
+                    for r in groups[what]:
+                        imp = [e for e in earlier for q in desc.get(id(e), []) if q["src"] == r["src"] and q["bound"][0] <= r["bound"][0]]
+                        if not imp:
+                            late.append(r)
+                    if not late:
+                        rep.ok(rule, inst, "%s refuses %s above %s: already refused before / at the first write (%s)"
+                               % (x.name, what, ", ".join("%s (%d)" % (r["bound"][1], r["bound"][0]) for r in groups[what]),
+                                  ", ".join(sorted(set(e.name for e in earlier)))), groups[what][0]["loc"])
+                    else:
+                        rep.violation(rule, inst,
+                                      "%s backend: %s refuses an invitation whose %s exceeds %s after %s already stored the pending group, and no "
+                                      "earlier call checks that value against a bound at least as strict: the call reports failure, the Pending "
+                                      "group (and what was written in between) stays behind"
+                                      % (backend, x.name, what, " / ".join("%s (%d)" % (r["bound"][1], r["bound"][0]) for r in late), w.name), late[0]["loc"])
+    rep.floor(rule, "argument-validation refusals in storage calls after the first write (both backends)", examined, 8)
+
+
 def _parses_welcome_call(prog, c):
     return any(_parses_welcome(prog, t) for t in prog.call_targets(c))
 
@@ -399,6 +670,7 @@ def run(ctx, rep):
     clause_preview_gate(prog, rep, pw)
     clause_existing_group(prog, rep, pw)
     clause_no_refusal_after_write(prog, rep, pw)
+    clause_storage_refusal_after_write(prog, rep, pw)
     clause_foreign_routing_id(prog, rep)
     clause_pending_only(prog, rep, pw)
     clause_accept_decline(prog, rep)
